@@ -76,9 +76,11 @@ def make_sampler(kind, post, d, rng, temperature=1.0, bounds=None, seed=1, **kw)
     if bounds is not None:
         lo, hi = bounds
         start = np.clip(start, lo + 0.05 * (hi - lo), hi - 0.05 * (hi - lo))
-    if kind == "gibbs":
-        ch = GibbsChain(posterior=post, start=start, widths=np.full(d, 0.5), temperature=temperature,
-                        display_progress=False)
+    if kind in ("gibbs", "metropolis"):
+        from inference.mcmc.gibbs import MetropolisChain
+        cls_ = GibbsChain if kind == "gibbs" else MetropolisChain          # (MetropolisChain: the base class of both)
+        ch = cls_(posterior=post, start=start, widths=np.full(d, 0.5), temperature=temperature,
+                  display_progress=False)
         if bounds is not None:
             for i in range(d):
                 ch.set_boundaries(i, (bounds[0][i], bounds[1][i]))
@@ -94,6 +96,8 @@ def make_sampler(kind, post, d, rng, temperature=1.0, bounds=None, seed=1, **kw)
         pos = start[None, :] + 0.3 * rng.normal(size=(nw, d))
         if bounds is not None:
             pos = bounds[0] + (bounds[1] - bounds[0]) * rng.uniform(0.05, 0.95, size=(nw, d))
+        if kw.get("integer_starts"):
+            pos = np.round(pos * 3).astype(int) + np.arange(nw)[:, None] * (np.arange(d)[None, :] + 1)
         ch = EnsembleSampler(posterior=post, starting_positions=pos, bounds=bounds, display_progress=False)
     else:
         raise ValueError(kind)
